@@ -411,6 +411,7 @@ class DnsUpstream(sansio.Peer):
         super().__init__()
         self.coalesce = coalesce and transport == "tcp"
         self._pending = bytearray()
+        self.segments = []  # TCP: the segments written, in order
         self.transport = transport
         self.responder = responder
         self.rng = rng
@@ -464,6 +465,7 @@ class DnsUpstream(sansio.Peer):
         if mode == "split":
             mode = self.rng.randrange(1, max(2, len(wire)))
         for s in cut(wire, self.rng, mode):
+            self.segments.append(bytes(s))
             self.send(s)
 
     def flush(self):
